@@ -231,6 +231,11 @@ class Fn:
                     return "(e_call %sgetter [])" % self.pfx
             self.bad("attribute", node)
         if isinstance(node, ast.Subscript):
+            if isinstance(node.slice, ast.Slice):
+                sl = node.slice
+                if sl.step is not None or sl.lower is None or sl.upper is None:
+                    self.bad("slice without both bounds or with a step", node)
+                return "(e_slice %s %s %s)" % (self.e(node.value), self.e(sl.lower), self.e(sl.upper))
             return "(e_bino p_getitem %s %s)" % (self.e(node.value), self.e(node.slice))
         if isinstance(node, ast.List):
             return "(e_list [%s])" % "; ".join(self.e(x) for x in node.elts)
